@@ -263,7 +263,11 @@ def build_type(spec, reg, meta=None):
                         args.append('default_factory=lambda: copy.deepcopy(D%d)' % i)
                     else:
                         args.append('default=D%d' % i)
-                if fd.get('alias') is not None:
+                if fd.get('catchall'):
+                    from dataclass_wizard import CatchAll
+                    ns['CatchAll'] = CatchAll
+                    lines.append('    %s: CatchAll = None' % fd['name'])
+                elif fd.get('alias') is not None:
                     lines.append('    %s: T%d = json_field(%r, all=True%s)' % (fd['name'], i, fd['alias'], ''.join(', ' + a for a in args)))
                 elif args:
                     lines.append('    %s: T%d = field(%s)' % (fd['name'], i, ', '.join(args)))
@@ -285,7 +289,7 @@ def build_type(spec, reg, meta=None):
                 spec['id'], cstr(spec['name']),
                 clist(['mkF %s %s' % (cstr(fd['name']), copt(cstr(fd['alias']) if fd.get('alias') is not None else None))
                        for fd in spec['fields']]),
-                copt(cstr(spec['tag']) if spec.get('tag') is not None else None)))
+                copt(cstr(eff_tag(spec)) if eff_tag(spec) is not None else None)))
         return reg.by_id[key]
     raise ValueError('type spec %r' % (spec,))
 
@@ -298,8 +302,14 @@ def bind_meta(cls, meta):
 
 
 def tzinfo_of(off):
+    """None (naive) | offset seconds (0 = timezone.utc) | {'off': s, 'name': n} named fixed offset | {'zone': IANA key}"""
     if off is None:
         return None
+    if isinstance(off, dict):
+        if 'zone' in off:
+            import zoneinfo
+            return zoneinfo.ZoneInfo(off['zone'])
+        return datetime.timezone(datetime.timedelta(seconds=off['off']), off['name'])
     if off == 0:
         return datetime.timezone.utc
     return datetime.timezone(datetime.timedelta(seconds=off))
@@ -379,6 +389,13 @@ def coq_ty(spec, reg):
 
 
 # --------------------------------------------------------------------------- reference encoder (C03)
+def eff_tag(spec):
+    """explicit Meta.tag, or the class name under auto_assign_tags for a Union member"""
+    if spec.get('tag') is not None:
+        return spec['tag']
+    return spec['name'] if spec.get('auto_tag') else None
+
+
 def ref_key(name, xf):
     """Documented spelling of a snake_case field name under a key transform (docs: Meta / key_transform)."""
     ws = name.split('_')
@@ -421,10 +438,17 @@ def ref_encode(o, cfg, reg):
         spec = reg.info[type(o)]['spec']
         out = {}
         for fd in spec['fields']:
+            if fd.get('catchall'):
+                # unknown keys captured on load are written back under their own names (docs: "Catch All")
+                extra = getattr(o, fd['name'])
+                if extra:
+                    for k, v in extra.items():
+                        out[k] = f(v)
+                continue
             key = fd['alias'] if fd.get('alias') is not None else ref_key(fd['name'], cfg.get('xf') or 'CAMEL')
             out[key] = f(getattr(o, fd['name']))
-        if spec.get('tag') is not None:
-            out[cfg.get('tag_key') or '__tag__'] = spec['tag']
+        if eff_tag(spec) is not None:
+            out[cfg.get('tag_key') or '__tag__'] = eff_tag(spec)
         return out
     if isinstance(o, tuple) and hasattr(o, '_fields'):
         return type(o)(*[f(x) for x in o])
@@ -469,6 +493,44 @@ def mutable_ids(o, acc=None):
         for fd in dataclasses.fields(o):
             mutable_ids(getattr(o, fd.name, None), acc)
     return acc
+
+
+def nested_instances(o, acc=None, top=True):
+    """dataclass instances reachable from o (excluding o itself), in discovery order"""
+    if acc is None:
+        acc = []
+    if dataclasses.is_dataclass(o) and not isinstance(o, type):
+        if not top:
+            acc.append(o)
+        for fd in dataclasses.fields(o):
+            nested_instances(getattr(o, fd.name, None), acc, False)
+    elif isinstance(o, dict):
+        for k, v in o.items():
+            nested_instances(k, acc, False); nested_instances(v, acc, False)
+    elif isinstance(o, (list, tuple, set, frozenset, collections.deque)):
+        for x in o:
+            nested_instances(x, acc, False)
+    return acc
+
+
+def scribble(o, seen=None):
+    """Destructively edit every mutable container reachable from a dump result
+    (the instance must not notice: it shares nothing with the result)."""
+    seen = set() if seen is None else seen
+    if id(o) in seen:
+        return
+    seen.add(id(o))
+    if isinstance(o, dict):
+        for v in list(o.values()):
+            scribble(v, seen)
+        o['<scribble>'] = ['x']
+    elif isinstance(o, list):
+        for v in o:
+            scribble(v, seen)
+        o.append('<scribble>')
+    elif isinstance(o, tuple):
+        for v in o:
+            scribble(v, seen)
 
 
 def json_safe_py(o):
